@@ -9,6 +9,10 @@ LeadPublishedFooterReadable == Lead(PublishedFooterReadable)
 LeadOpenNeverFails == Lead(OpenNeverFails)
 LeadAtLeastSynced == Lead(AtLeastSynced)
 LeadCurrentFileExists == Lead(CurrentFileExists)
+\* a read-only store is open while the directory holds fewer files than before its open
+\* (state-level stand-in for the action property ReadOnlyOpenFrame, for lead harvesting)
+LeadReadOnlyFiles == Lead(~(open /\ ro /\ Len(hist) > 0 /\ hist[Len(hist)].act = "Reopen"
+                            /\ Len(hist) > 1 /\ hist[Len(hist)].exp.ex # hist[Len(hist) - 1].exp.ex))
 
 Edge == PrintT(<<"BEH", ToJson(hist')>>)
 SimPrint == IF Len(hist) = SimLen \/ (Len(hist) >= 3 /\ ~ENABLED Next) THEN PrintT(<<"BEH", ToJson(hist)>>) ELSE TRUE
